@@ -147,6 +147,11 @@ fn run_scenario(sc: &Value, out: &mut dyn Write) {
                     "obmp" => { bytes.extend(rp::fast_path(&[rp::FpUpdate::Other(8, vec![1, 0, 2, 0]), rp::FpUpdate::Bitmap(vec![rp::Rect { l: k as u16, t: 0, r: k as u16, b: 0, w: 1, h: 1, bpp: 32, flags: 0, data: vec![k as u8, 0, 0, 0] }])], false, 0)); sent.push(k); }
                     "ctl" => bytes.extend(ctl_pdu(p.get(1).and_then(|x| x.as_str()).unwrap_or(""))),
                     "bmp3" => { bytes.extend(&bitmap3_pdu(k)); sent.push(k); sent.push(k + 1); sent.push(k + 2); }
+                    // ["part1", k, "big"]: the first 1 000 bytes of a PDU of more than 16 KiB (a 72x72 tile at 32 bpp)
+                    "part1" if p.get(2).and_then(|x| x.as_str()) == Some("big") => {
+                        let big = rp::fast_path(&[rp::FpUpdate::Bitmap(vec![rp::Rect { l: k as u16, t: 0, r: k as u16 + 71, b: 71, w: 72, h: 72, bpp: 32, flags: 0, data: vec![0x55; 72 * 72 * 4] }])], true, 0);
+                        bytes.extend(&big[..1000]);
+                    }
                     "part1" => bytes.extend(&full[..full.len() / 2]),
                     "part2" => { bytes.extend(&full[full.len() / 2..]); sent.push(k); }
                     _ => {}
